@@ -49,7 +49,7 @@ def model(ctx):
     for key, names in seen.items():
         for base in bases:
             cfg = write_cfg(key, base, "PDM-%s-%s" % ("_".join(key) or "none", base))
-            res = tlc.tlc("ParallelDM", cfg, workers=12, timeout=1800, heap="6g")
+            res = tlc.tlc("ParallelDM", cfg, workers=12, timeout=3600 if ctx.quick else 14400, heap="6g")
             ctx.add_mc(res)
             if res["invariant_violated"]:
                 path = core.write_replay(ctx, "model-%s" % names[0], {
